@@ -198,6 +198,42 @@ def run(program, rep, tier):
               '(or without) applying the pending deletions',
               line=f.node.lineno)
 
+    # ---- appliers: only process() (and its private helpers) flush the set ----
+    def _self_calls(m):
+        return {n.func.attr for n in ast.walk(m.node) if isinstance(
+            n, ast.Call) and isinstance(n.func, ast.Attribute) and isinstance(
+                n.func.value, ast.Name) and n.func.value.id == 'self'}
+    meths = {m.name: m for c in [world] + program.subclasses(world)
+             for m in c.methods.values() if m.kind == 'method'}
+    callers_of = {}
+    for m in meths.values():
+        for callee in _self_calls(m):
+            callers_of.setdefault(callee, set()).add(m.name)
+    allowed = {'process'}
+    changed = True
+    while changed:
+        changed = False
+        for name in meths:
+            if name in allowed or not name.startswith('_') \
+                    or name.startswith('__'):
+                continue
+            cs = callers_of.get(name, set()) - {name}
+            if cs and cs <= allowed:
+                allowed.add(name)
+                changed = True
+    foreign = sorted(c for c in callers_of.get(applier_name, set())
+                     if c not in allowed and c != applier_name)
+    fm = meths[foreign[0]] if foreign else None
+    rep.check(not foreign, 'C05.appliers', site(fm) if fm else site(f),
+              f'self.{applier_name}()',
+              'the pending deletions are applied only by process() (start of '
+              'the frame)',
+              'a method other than process() applies ALL pending deletions: '
+              'entities awaiting deletion lose their components (and get '
+              'on_remove) in the middle of a frame instead of at the start of '
+              'the next process()', detail={'callers': foreign},
+              line=fm.node.lineno if fm else None)
+
     # ---- visible -------------------------------------------------------------
     # World methods that (transitively, through self.<m> calls and
     # properties) read the pending set
@@ -418,6 +454,21 @@ def run(program, rep, tier):
                     'process() raise KeyError on this and every later frame',
                     detail=d, line=line)
     rep.floor('C05.progress', 'exception edges in the applier', n_exc, 2)
+
+    # ---- teardown: the tables agree whenever the teardown runs user code ----
+    # (an on_remove callback that queries the world, or raises, must find the
+    # row and the type index of the entity being deleted in agreement;
+    # otherwise process() fails - and fails again on every later frame)
+    from . import c01
+    todo, tear = [applier_name], set()
+    while todo:
+        n = todo.pop()
+        if n in tear or n not in meths:
+            continue
+        tear.add(n)
+        todo += [c for c in _self_calls(meths[n]) if c.startswith('_')
+                 and not c.startswith('__')]
+    c01.analyse_writers(program, rep, only=tear, prefix='C05')
 
     # ---- clear ----------------------------------------------------------------
     cl = program.method('World', 'clear')
